@@ -28,6 +28,7 @@ Menu       bal2 (``balance`` twice per row, vy between), agg (two aggregates, GR
            fetchone() and fetchall() in the worker.  tx/tx2/pr/pr2/nt: scans of #transactions / #prices / #notes, with a
            serial re-run after the concurrent phase.
            ao/aa/am/ap: first statements of a fresh shared connection over an instrumented ledger ('sharedx').
+           gp/cv: per-row price lookups (getprice, convert) over ledgers quoting the same pair at different prices.
            dv/ds: inexact Decimal division, compared digit for digit with the main-thread serial reference.
            fa/fb, fs/fs2/fh, fd/fd2: vy() as a later ARGUMENT of root / substr / date_add (points inside an argument
            list, same overload, different values), pairs on all three configurations.
@@ -337,6 +338,14 @@ DEC_MENU = {
     'ds': ("SELECT account, sum(number) / 7 AS q WHERE account ~ 'Assets' AND vy(1) = 1 GROUP BY account", None, ()),
 }
 DEC_PAIRS = [(cfg, p) for cfg in ('shared', 'different') for p in (('dv', 'dv'), ('dv', 'ds'))]
+# Per-row price lookups: the three harness ledgers quote EUR/USD on the same dates at DIFFERENT prices; vy(1) is a
+# point between the rows (and between compilation and the first lookup).
+PRICE_MENU = {
+    'gp': ("SELECT date, vy(1) AS y, getprice('EUR', 'USD', date) AS p WHERE account ~ 'Assets'", None, ()),
+    'cv': ("SELECT account, vy(1) AS y, convert(position, 'USD', date) AS v WHERE currency = 'EUR'", None, ()),
+}
+PRICE_PAIRS = [(cfg, p) for cfg in ('different', 'shared') for p in (('gp', 'gp'), ('cv', 'cv'), ('gp', 'cv'))]
+MENU.update(PRICE_MENU)
 MENU.update(ACCT_MENU)
 MENU.update(DEC_MENU)
 MENU.update(FROM_MENU)
@@ -765,7 +774,8 @@ def plan(ctx):
         add('yield', config, ids, None, sched.interleavings(*[pts[s] + 1 for s in ids]), 20)
     pts.update({sid: count_points('yield', sid, seed) for sid in list(ARG_MENU) + list(CURSOR_MENU) + list(TABLE_MENU)})
     pts.update({sid: count_points('yield', sid, seed) for sid in list(ACCT_MENU) + list(DEC_MENU)})
-    for config, ids in ARG_PAIRS + CURSOR_PAIRS + TABLE_PAIRS + ACCT_PAIRS + DEC_PAIRS:
+    pts.update({sid: count_points('yield', sid, seed) for sid in PRICE_MENU})
+    for config, ids in ARG_PAIRS + CURSOR_PAIRS + TABLE_PAIRS + ACCT_PAIRS + DEC_PAIRS + PRICE_PAIRS:
         add('yield', config, ids, None, sched.interleavings(*[pts[s] + 1 for s in ids]), 600)
     for config in CONFIGS:
         for ids in pairs:
@@ -974,7 +984,7 @@ def _run(ctx):
                   '3 threads: all schedules with <= 2 preemptions for %d triples (shared and different configurations; the quick '
                   'subset in the separate configuration); text statements: all interleavings of %s incl. parse points; FROM-qualified and BALANCES/JOURNAL pairs: %s'
                   % (len(total.sets['items|yield|shared|2']), len(total.sets['items|yield|shared|3']), TEXT_PAIRS + PARSE_PAIRS,
-                     [f'{c}:{"+".join(i)}' for c, i in FROM_PAIRS + TEMPLATE_PAIRS + ARG_PAIRS + CURSOR_PAIRS + TABLE_PAIRS + ACCT_PAIRS + DEC_PAIRS]))
+                     [f'{c}:{"+".join(i)}' for c, i in FROM_PAIRS + TEMPLATE_PAIRS + ARG_PAIRS + CURSOR_PAIRS + TABLE_PAIRS + ACCT_PAIRS + DEC_PAIRS + PRICE_PAIRS]))
                  + ('; line granularity (sys.settrace, a point before every line of beanquery/*.py): all schedules with <= 1 '
                     'preemption for all pairs in the shared and different configurations; <= 2 preemptions with line points restricted to the modules '
                     'holding the shared state for %s (at most %d executions per sub-shard)'
